@@ -39,12 +39,175 @@ def nontrivial(sc, obs):
     return scanned and (multi or compacted)
 
 
+def cluster_scan_scenario(rng, sid, members):
+    import dmaplib
+    d = "c12d%d" % sid
+    n = rng.randrange(40, 260)
+    keys = [dmaplib.hx("%s%04d" % (rng.choice("abz"), i)) for i in range(n)]
+    ops = []
+    live = set()
+    for k in keys:
+        ops.append({"op": "put", "c": rng.choice(["emb@owner", "cc", "emb@other"]), "d": d, "k": k, "v": dmaplib.hx("v" * rng.choice([1, 20, 60]))})
+        live.add(k)
+    for _ in range(n // 2):
+        k = rng.choice(keys)
+        if rng.random() < 0.5:
+            ops.append({"op": "del", "c": "cc", "d": d, "k": k})
+            live.discard(k)
+        else:
+            ops.append({"op": "put", "c": "emb@owner", "d": d, "k": k, "v": dmaplib.hx("w" * rng.choice([1, 30, 70]))})
+            live.add(k)
+    for m in range(members):
+        ops.append({"op": "compact", "m": m, "d": d})
+    scans = []
+    for c in ("cc", "emb@owner", "emb@other"):
+        for cnt in (0, 1, 3, 1000):
+            scans.append({"op": "iterscan", "c": c, "d": d, "count": cnt})
+        for pat in ("^61", "^7a7a", "."):          # keys are hex-decoded: ^a, ^zz (matches nothing), anything
+            scans.append({"op": "iterscan", "c": c, "d": d, "count": rng.choice([0, 2]), "match": bytes.fromhex(pat[1:]).decode() if pat != "." else "."})
+    for sc in scans:
+        if sc.get("match") and sc["match"] != ".":
+            sc["match"] = "^" + sc["match"]
+    return {"id": sid, "ops": ops + scans, "_live": sorted(live)}
+
+
+def judge_cluster_scan(sc, obs):
+    import re
+    for i, (op, ob) in enumerate(zip(sc["ops"], obs)):
+        if op["op"] in ("put", "del") and ob.get("r") != "ok":
+            return (i, "%s returned %s" % (op["op"], ob.get("r")))
+        if op["op"] in ("scan", "iterscan"):
+            if ob.get("r") != "ok":
+                return (i, "scan through %s returned %s" % (op["c"], ob.get("r")))
+            pat = op.get("match")
+            exp = [k for k in sc["_live"] if not pat or re.search(pat.encode(), bytes.fromhex(k))]
+            got = ob.get("keys") or []
+            if sorted(got) != sorted(exp):
+                return (i, "iterator through %s (count=%s match=%s) yields %d keys (%d distinct), %d present keys match; missing %s extra %s" % (
+                    op["c"], op.get("count"), pat, len(got), len(set(got)), len(exp), sorted(set(exp) - set(got))[:3], sorted(set(got) - set(exp))[:3]))
+    return None
+
+
+def iter_case_to_coq(cid, ob):
+    """icase for Model/IterRun.v: keys are numbered in order of first appearance"""
+    num = {}
+
+    def kn(k):
+        if k not in num:
+            num[k] = len(num)
+        return num[k]
+    parts = []
+    maxpages = 1
+    for p, route in enumerate(ob["routes"]):
+        tbl = []
+        tot = 0
+        for x in ob["pages"]:
+            if x["part"] == p:
+                tot += max(1, len(x["pages"]))
+                tbl.append("(%s, %s, %s)" % (vlib.cbool(x["rep"]), vlib.cN(x["o"]),
+                                            vlib.clist([vlib.clist([vlib.cN(kn(k)) for k in pg]) for pg in x["pages"]])))
+        maxpages = max(maxpages, tot)
+        parts.append("(%s, %s, %s)" % (vlib.clist([vlib.cN(o) for o in route["p"]]), vlib.clist([vlib.cN(o) for o in route["r"]]), vlib.clist(tbl)))
+    obs = vlib.clist([vlib.cN(kn(k)) for k in ob["keys"]])
+    return "(Build_icase %s %s %s %s)" % (vlib.cN(cid), vlib.clist(parts), vlib.cnat(min(4000, maxpages + 3)), obs)
+
+
+def iter_coq_compare(cases, shard=40):
+    import re
+    if not cases:
+        return []
+    header = ("From Coq Require Import List NArith Bool.\nRequire Import Olric.Model.Iter Olric.Model.IterRun.\n"
+              "Import ListNotations.\nLocal Open Scope N_scope.\n")
+    shards = [cases[i:i + shard] for i in range(0, len(cases), shard)]
+    texts = [header + "Definition cases : list icase := [\n" + ";\n".join(t for _, t in sh) +
+             "\n].\nDefinition M := Eval vm_compute in mismatches cases.\nPrint M.\n" for sh in shards]
+    outs = vlib.coq_eval_shards("c12iter", texts)
+    bad = []
+    tags = {}
+    for tag, t in cases:
+        m = re.match(r"\(Build_icase (\d+)%N", t)
+        tags[int(m.group(1))] = tag
+    for rc, out, err, dt in outs:
+        if rc != 0:
+            raise vlib.CheckError("coqc failed on generated iterator cases: " + err[-2000:])
+        body = out.split("M =", 1)[1].rsplit(":", 1)[0] if "M =" in out else "?"
+        flat = " ".join(body.split())
+        if flat in ("[]", "nil"):
+            continue
+        ids = [int(x) for x in re.findall(r"(\d+)", flat.replace("%N", ""))]
+        if not ids:
+            raise vlib.CheckError("unparsed coq output: " + flat[:300])
+        bad += [tags[i] for i in ids]
+    return bad
+
+
+def cluster_part(res):
+    import dmaplib
+    groups = []
+    sid = 5000
+    cfgs = [{"members": 1, "replicas": 1, "partitions": 7, "table": 512, "evict_workers": 1},
+            {"members": 3, "replicas": 2, "partitions": 13, "table": 256, "evict_workers": 1},
+            {"members": 2, "replicas": 1, "partitions": 7, "table": 1024, "evict_workers": 1}]
+    if res.tier != "quick":
+        # two replica owners per partition: predicate only when the iteration needed the periodic re-fetch of the
+        # routing table (C12_two_replica_owners_need_refetch), model comparison otherwise
+        cfgs.append({"members": 3, "replicas": 3, "partitions": 7, "table": 512, "evict_workers": 1})
+    for cfg in cfgs:
+        scs = []
+        for i in range(2 if res.tier == "quick" else 12):
+            scs.append(cluster_scan_scenario(vlib.rng_for(res.seed, PID, "cluster", sid), sid, cfg["members"]))
+            sid += 1
+        groups.append((cfg, scs))
+    results = dmaplib.run_groups(groups)
+    nscan = 0
+    for cfg, scs in groups:
+        for sc in scs:
+            obs = results[sc["id"]]["obs"]
+            nscan += sum(1 for o in sc["ops"] if o["op"] in ("scan", "iterscan"))
+            v = judge_cluster_scan(sc, obs)
+            if v:
+                res.violation({"kind": "impl-violates-property", "level": "cluster-iterator", "cluster": cfg,
+                               "scenario": {"ops": sc["ops"], "_live": sc["_live"]}, "failed_step": v[0],
+                               "predicate": {"name": "iterator yields exactly the present matching keys, each once", "verdict": v[1]}, "seed": res.seed})
+                break
+    itercases = []
+    for cfg, scs in groups:
+        for sc in scs:
+            obs = results[sc["id"]]["obs"]
+            for i, (op, ob) in enumerate(zip(sc["ops"], obs)):
+                if op["op"] == "iterscan" and ob.get("r") == "ok":
+                    if ob.get("ms", 0) > 800:
+                        res.coverage["iter_discarded_slow"] = res.coverage.get("iter_discarded_slow", 0) + 1
+                        continue       # the periodic re-fetch of the routing table (1 s) is not in the model
+                    itercases.append(((cfg, sc, i), iter_case_to_coq(len(itercases), ob)))
+    bad = iter_coq_compare(itercases)
+    res.coverage["iter_model_cases"] = len(itercases)
+    res.coverage["iter_model_pages"] = sum(sum(len(x["pages"]) for x in results[sc["id"]]["obs"][i]["pages"]) for (cfg, sc, i), _ in itercases)
+    for (cfg, sc, i) in bad[:3]:
+        ob = results[sc["id"]]["obs"][i]
+        res.violation({"kind": "model-vs-impl", "level": "cluster-iterator", "cluster": cfg, "op": sc["ops"][i],
+                       "routes": ob["routes"], "pages": ob["pages"], "yielded": ob["keys"],
+                       "theorem_or_correspondence": "Model/Iter.v iter_all vs cluster_iterator.go (yield sequence)",
+                       "seed": res.seed}, no_input=True)
+    return nscan, sum(len(s) for _, s in groups)
+
+
 def run(res):
     c11.run(res, pid=PID, scs_fn=scenarios, nontrivial_fn=nontrivial,
             rule="corpus (holes, recycled tables, stale versions) + seeded random histories of puts/overwrites/deletes/compaction/"
                  "transfer that shape the tables, each followed by full iterations from cursor 0 to cursor 0 with COUNT in "
                  "{1,2,3,10,1000} and patterns {none, ^a, ^b, ^z}; compared: sorted multiset of yielded keys (exactly the present "
-                 "matching keys, each once) and termination; cursor values are not compared")
+                 "matching keys, each once) and termination; cursor values are not compared. Cluster level: 40-260 keys written, "
+                 "overwritten, deleted and compacted on clusters of 1-3 members (R 1-2, tables 256..1024), then the client iterator "
+                 "(cluster client, embedded owner / non-owner) with COUNT in {default,1,3,1000} and MATCH patterns (prefix, nothing, "
+                 "everything): exactly the present matching keys, each once; and model comparison: for every iteration the harness records "
+                 "the routing-table entry of every partition and the complete DM.SCAN page sequence of every listed owner, and "
+                 "Model/Iter.v has to produce exactly the key sequence the real iterator handed out (same order)")
+    if getattr(res, "harness_error", None):
+        return
+    nscan, nsc = cluster_part(res)
+    res.coverage["cluster_iterations"] = nscan
+    res.coverage["cluster_scenarios"] = nsc
 
 
 def replay(res, path):
